@@ -39,7 +39,7 @@ package v2
 //@   loop 1 invariant (errorsInBulk <==> errCount(ret) > 0) && (!continueOnFailure ==> errCount(ret) == 0)
 //@   loop 1 decreases len(bulk) - rangeindex
 //@   property C18
-//@   alsofor C09
+//@   alsofor C09 C10
 
 // C14: the dry-run flag of the request reaches the engine. The accepted spellings (YES / TRUE in any case, or 1)
 // are the API's; a request carrying one of them must never run as a real write.
